@@ -19,7 +19,8 @@ Event(j) ==
     ot |-> j.ot, r |-> j.r, site |-> j.site, via |-> j.via, asg |-> j.asg, trap |-> j.trap, ub |-> j.ub,
     hasref |-> "conv" \in DOMAIN j,
     conv |-> IF "conv" \in DOMAIN j THEN Dec("fx", j.conv) ELSE Z0,
-    ref |-> IF "ref" \in DOMAIN j THEN Dec("fx", j.ref) ELSE Z0]
+    ref |-> IF "ref" \in DOMAIN j THEN Dec("fx", j.ref) ELSE Z0,
+    alts |-> IF "alts" \in DOMAIN j THEN [i \in DOMAIN j.alts |-> Dec("fx", j.alts[i])] ELSE <<>>]
 
 (* C07 on one event: the call returned normally and no sanitizer report is attributed to it *)
 InDomain_C07(e) ==
